@@ -287,7 +287,7 @@ def _solver_chunk(args):
     for ms in msets:
         verdicts = set()
         sols = set()
-        uppers = [sm.TYPES[v] for k, v in ms if k == "U"]
+        uppers = [sm.TYPES[v] for k, v in ms if k == "U" and v != "Any"]
         separate = any(not (a <= b or b <= a) for a in uppers for b in uppers)
         has_c = any(k == "C" for k, _ in ms)
         for perm in _it.permutations(ms):
@@ -406,6 +406,47 @@ def r15_8(prog: Program, chk: Check) -> None:
     chk.analysed["bound_constructions_outside_solver"] = n
 
 
+# ------------------------------------------------------------------- R15.9
+def r15_9(prog: Program, chk: Check) -> None:
+    import multiprocessing as mp
+    import os as _os
+
+    from .c06 import _generic_chunk
+
+    chk.rule(
+        "R15.9",
+        "the joint solve of a call as a finite model (the generic call model of C06 R06.f restricted to parameters that are type variables): Signature.check_call_with_bound_args, "
+        "_check_param_type_compatibility, TypeVarValue.can_assign / make_bounds_map / get_inherent_bounds, unify_bounds_maps, resolve_bounds_map and solve are interpreted as one "
+        "stack over real runtime objects; a call whose arguments admit no common type for a type variable (constrained to (int, str), bound to int) is diagnosed whether or not the "
+        "return type mentions the variable, and a call that has a solution is not",
+        floor=4,
+    )
+    selftest = bool(_os.environ.get("VERIF_SELFTEST"))
+    procs = 2 if selftest else min(8, _os.cpu_count() or 1)
+    with mp.get_context("fork").Pool(procs) as pl:
+        results = pl.map(_generic_chunk, [(i, procs, 2, True) for i in range(procs)])
+    total = 0
+    merged: Dict[str, Dict[str, object]] = {}
+    unsupported = []
+    for n, classes, uns in results:
+        total += n
+        unsupported += uns
+        for k, c in classes.items():
+            m = merged.setdefault(k, {"n": 0, "bad": 0, "witness": []})
+            m["n"] += c["n"]  # type: ignore[operator]
+            m["bad"] += c["bad"]  # type: ignore[operator]
+            m["witness"] = sorted(list(m["witness"]) + list(c["witness"]), key=lambda x: (len(x["signature"]) + len(x["call"]), repr(x)))[:4]  # type: ignore[arg-type]
+    chk.model_evaluations += total
+    chk.analysed["joint_solve_model"] = {"calls": total, "not_modelled": len(unsupported)}
+    site = prog.site("signature", prog.func("signature", "Signature.check_call_with_bound_args"))
+    for k, c in sorted(merged.items()):
+        wit = c["witness"]
+        chk.ob("R15.9", f"signature::joint-solve-model::{k}", int(c["bad"]) == 0, site,  # type: ignore[arg-type]
+               f"{c['n']} calls, {c['bad']} failing" + (f"; smallest: {wit[0]}" if wit else ""), witness=wit)  # type: ignore[index]
+    if unsupported:
+        raise AnchorError(f"{len(unsupported)} generic calls cannot be modelled; first: {unsupported[0]}")
+
+
 def run(prog: Program, chk: Check) -> None:
     guard(chk, r15_1, prog, chk)
     guard(chk, r15_2, prog, chk)
@@ -413,3 +454,4 @@ def run(prog: Program, chk: Check) -> None:
     guard(chk, r15_5, prog, chk)
     guard(chk, r15_7, prog, chk)
     guard(chk, r15_8, prog, chk)
+    guard(chk, r15_9, prog, chk)
